@@ -6,7 +6,9 @@ N=${1:-4}
 cd /verif
 ls -d seeded/C* > /tmp/asp_list.$$
 for d in seeded/benign/C*; do echo "$d"; done >> /tmp/asp_list.$$
-for d in seeded/benign2/* seeded/benign3/* seeded/benign4/*; do echo "$d"; done >> /tmp/asp_list.$$
+for d in seeded/benign2/* seeded/benign3/* seeded/benign4/* seeded/benign5/*; do [ -d "$d" ] && echo "$d"; done >> /tmp/asp_list.$$
+# ASP_ONLY=<regex>: only the seeds whose directory matches; ASP_OUT=<file>: result file (default out/allseeds.out)
+if [ -n "$ASP_ONLY" ]; then grep -E "$ASP_ONLY" /tmp/asp_list.$$ > /tmp/asp_list.$$.f; mv /tmp/asp_list.$$.f /tmp/asp_list.$$; fi
 rm -f /tmp/asp_out.$$.*
 w=0
 while [ $w -lt $N ]; do
@@ -19,7 +21,7 @@ while [ $w -lt $N ]; do
       i=$((i+1)); [ $(( (i - 1) % N )) -eq $w ] || continue
       case "$d" in
         seeded/benign/*) ps=$(basename $d);;
-        seeded/benign[234]/*)
+        seeded/benign[2345]/*)
           f=$(grep "^+++ b/" $d/patch.diff | head -1 | sed 's|+++ b/rust/ommx/src/||')
           case "$f" in
             evaluate.rs) ps="C01 C03 C04 C05 C10";; linear.rs) ps="C02 C12 C13 C03 C04 C11 C16 C08";; parametric_instance.rs) ps="C08 C10";;
@@ -43,7 +45,8 @@ while [ $w -lt $N ]; do
 done
 wait
 git -C /repo worktree prune
-sort /tmp/asp_out.$$.* > out/allseeds.out
+R=${ASP_OUT:-out/allseeds.out}
+sort /tmp/asp_out.$$.* > $R
 rm -f /tmp/asp_out.$$.* /tmp/asp_list.$$
-echo "breaking seeds not reported as VIOLATION: $(grep '^seeded/C' out/allseeds.out | grep -vc VIOLATION)"
-echo "benign refactorings reported as VIOLATION: $(grep '^seeded/benign' out/allseeds.out | grep -c VIOLATION)"
+echo "breaking seeds not reported as VIOLATION: $(grep '^seeded/C' $R | grep -vc VIOLATION)"
+echo "benign refactorings reported as VIOLATION: $(grep '^seeded/benign' $R | grep -c VIOLATION)"
